@@ -54,6 +54,9 @@ def armed(name):
     return [t for t in FakeTimer.registry if t.armed and getattr(t.function, "__name__", "") == name]
 
 
+DELAY_MISMATCH = []   # retry timers that were not armed with the delay configured at that moment
+
+
 def run_history(host, events):
     install_fake_timers()
     del FakeTimer.registry[:]
@@ -64,6 +67,12 @@ def run_history(host, events):
         for ev in events:
             kind = ev[0]
             raised = False
+            ntimers = len(FakeTimer.registry)
+            if kind == "setdelay":
+                # the establish-communications delay is reconfigured at run time (settings attribute = what S2F15 on ECID 1 writes);
+                # not an event of the state model: the retries that follow must use the new value
+                h.settings.establish_communication_timeout = ev[1]
+                continue
             if kind == "enable":
                 try:
                     h.enable()
@@ -117,6 +126,10 @@ def run_history(host, events):
                 raise ValueError(kind)
             if not rig.settle():
                 raise common.Wedged("the handler's threads did not come to rest")
+            for t in FakeTimer.registry[ntimers:]:
+                if getattr(t.function, "__name__", "") == "_on_wait_comm_delay_timeout" and t.interval != h.settings.establish_communication_timeout:
+                    DELAY_MISMATCH.append({"host": host, "events": [list(e) for e in events], "at_event": list(ev), "timer_interval": t.interval,
+                                           "configured_delay": h.settings.establish_communication_timeout})
             o = []
             for b in rig.new_frames():
                 sf = (b.header.stream, b.header.function)
@@ -165,10 +178,12 @@ def rand_events(rnd, n):
             evs.append(("s1f14", rnd.choice([0, 0, 0, 1, 2, 63]), rnd.random() < 0.9))
         elif c < 0.78:
             evs.append(("other", rnd.random() < 0.6, rnd.random() < 0.7))
-        elif c < 0.90:
+        elif c < 0.88:
             evs.append(("t3",))
-        else:
+        elif c < 0.97:
             evs.append(("delay",))
+        else:
+            evs.append(("setdelay", rnd.choice([1, 3, 7, 20, 60])))
     return evs
 
 
@@ -262,6 +277,11 @@ def run(tier, replay=None):
         return report.finish()
     rnd = common.rng("c07")
     cases = gen_cases(rnd, tier)
+    # the delay reconfigured at run time, then a refused / unanswered attempt: the retry timer must carry the new delay
+    for host in (True, False):
+        cases.append(("directed", host, [("enable",), ("setdelay", 3), ("linkup",), ("s1f14", 1, True), ("delay",), ("setdelay", 45), ("t3",), ("delay",), ("s1f14", 0, True)]))
+        cases.append(("directed", host, [("setdelay", 2), ("enable",), ("linkup",), ("t3",), ("setdelay", 9), ("delay",), ("s1f14", 2, True)]))
+    del DELAY_MISMATCH[:]
     wedged, kept, lits = [], [], []
     for c in cases:
         lit = common.guarded(lambda c=c: case_lit(c[1], c[2]), repr(c[1:]), wedged, 20.0)
@@ -270,6 +290,9 @@ def run(tier, replay=None):
             lits.append(lit)
     cases = kept
     common.report_wedged(report, wedged, proof)
+    if DELAY_MISMATCH:
+        report.violation({"kind": "counterexample", "what": "a retry was scheduled with a delay other than the establish-communications delay configured at that moment", **DELAY_MISMATCH[0],
+                          "count": len(DELAY_MISMATCH)}, True, tag="delay")
     bad, stats = evaluate(lits, "c07")
     spec_bad = [(i, m, sc) for i, m, sc in bad if sc >= 30]
     model_bad = [(i, m, sc) for i, m, sc in bad if m >= 10 and sc < 30]
